@@ -24,9 +24,26 @@ of the *stack instance concerned.
 */
 var VerifHook func(event string, id uintptr)
 
+/*
+VerifHookMtx, when non-nil, receives the same events as [VerifHook]
+plus the address of the sync.Mutex that guards the instance at that
+moment (zero when it has none): two instances reporting the same
+address share one lock.
+*/
+var VerifHookMtx func(event string, id, mutex uintptr)
+
 func verifPoint(event string, r *stack) {
 	if h := VerifHook; h != nil {
 		h(event, uintptr(unsafe.Pointer(r)))
+	}
+	if h := VerifHookMtx; h != nil {
+		var m uintptr
+		if r != nil && r.isInit() {
+			if mu, found := r.mutex(); found && mu != nil {
+				m = uintptr(unsafe.Pointer(mu))
+			}
+		}
+		h(event, uintptr(unsafe.Pointer(r)), m)
 	}
 }
 
